@@ -7,6 +7,7 @@ import (
 	"io"
 	"runtime"
 	"sync"
+	"sync/atomic"
 	"testing"
 	"time"
 
@@ -121,7 +122,18 @@ type c09Fail struct {
 	cs        map[string]any
 }
 
-const c09Wait = 40 * time.Second // bounded liveness: >= 20x the slowest expected case
+// Bounded-liveness patience: a healthy case completes in well under 1 s even on a
+// loaded machine, the bound is >= 20x that. Once a failure has been seen in this
+// process rapid is shrinking; re-runs then use a shorter bound so that shrinking
+// a stall terminates (a shrink attempt that does not reproduce is simply dropped).
+var c09Failed atomic.Bool
+
+func c09Patience() time.Duration {
+	if c09Failed.Load() {
+		return 4 * time.Second
+	}
+	return 30 * time.Second
+}
 
 // c09Case is one fully drawn scenario.
 type c09Case struct {
@@ -341,12 +353,15 @@ func (c *c09Case) inboundWire() (wire []byte, segStarts []int, before []int) {
 }
 
 func runC09Case(c *c09Case) (fails []c09Fail, classes []string, headerCut bool) {
+	c09Wait := c09Patience()
 	fail := func(key, what string, extra map[string]any) {
 		cs := c.describe()
 		for k, v := range extra {
 			cs[k] = v
 		}
 		fails = append(fails, c09Fail{key, what, cs})
+		c09Failed.Store(true)
+		c09Wait = c09Patience()
 	}
 	k := len(c.Eps)
 	a, b := rawpeer.Pipe(c.PlanA, c.PlanB)
